@@ -358,11 +358,35 @@ func ruleIntersectCoversAll(c *Ctx, r *R) {
 			if !ok || !isSets(ia.X) {
 				return
 			}
+			// smallest, rest := sets[0], sets[1:]; for _, other := range rest: the loop runs over a sub-slice - its elements are
+			// the sets from the sub-slice's start on
+			off := int64(0)
+			if sl, isSl := ia.X.(*ssa.Slice); isSl && isSets(sl.X) && sl.High == nil {
+				if sl.Low != nil {
+					lk, isK := sl.Low.(*ssa.Const)
+					if !isK {
+						undecidable = true
+						return
+					}
+					off = lk.Int64()
+				}
+			}
 			phi, ok := ia.Index.(*ssa.Phi)
 			if !ok {
 				if k, isK := ia.Index.(*ssa.Const); isK {
-					starts = append(starts, k.Int64())
+					starts = append(starts, k.Int64()+off)
 					return
+				}
+				// the rotated form of `for _, x := range s`: index = counter + 1 with the counter starting at -1
+				if bo, isBO := ia.Index.(*ssa.BinOp); isBO && bo.Op == token.ADD && isConstInt(bo.Y, 1) {
+					if p2, isP := bo.X.(*ssa.Phi); isP {
+						for _, e := range p2.Edges {
+							if isConstInt(e, -1) {
+								starts = append(starts, off)
+								return
+							}
+						}
+					}
 				}
 				undecidable = true
 				return
@@ -370,7 +394,7 @@ func ruleIntersectCoversAll(c *Ctx, r *R) {
 			found := false
 			for _, e := range phi.Edges {
 				if k, isK := e.(*ssa.Const); isK {
-					starts = append(starts, k.Int64())
+					starts = append(starts, k.Int64()+off)
 					found = true
 				}
 			}
@@ -386,12 +410,27 @@ func ruleIntersectCoversAll(c *Ctx, r *R) {
 				return
 			}
 			cal := staticCallee(&call.Call)
-			if cal == nil || cal.Blocks == nil || rootFn(cal).Pkg != rootFn(fn).Pkg {
+			// xslices.All(sets[1:], func(other S) bool {...}): the module's own universal quantifier looks at every element
+			isAll := cal != nil && fname(cal) == "All" && calleePkgPath(cal) == modPath+"/xslices"
+			if cal == nil || cal.Blocks == nil || (rootFn(cal).Pkg != rootFn(fn).Pkg && !isAll) {
 				return
 			}
 			for ai, a := range call.Call.Args {
 				sl, ok := a.(*ssa.Slice)
 				if !ok || !isSets(sl.X) || sl.High != nil || ai >= len(cal.Params) {
+					continue
+				}
+				if isAll {
+					lo := int64(0)
+					if sl.Low != nil {
+						k, isK := sl.Low.(*ssa.Const)
+						if !isK {
+							undecidable = true
+							continue
+						}
+						lo = k.Int64()
+					}
+					starts = append(starts, lo)
 					continue
 				}
 				lo := int64(0)
@@ -793,7 +832,7 @@ var _ = late(func() {
 // the first Next is not seen.
 func ruleRangeWrappersLive(c *Ctx, r *R) {
 	n := 0
-	for _, tn := range []string{"Map", "Set"} {
+	for _, tn := range []string{"Map", "Set", "btree"} { // btree.Range / RangeReverse themselves: no early Empty() for a tree that is empty now
 		meths := c.methodsOf(treeRel, tn)
 		var names []string
 		for mn := range meths {
@@ -803,6 +842,9 @@ func ruleRangeWrappersLive(c *Ctx, r *R) {
 		for _, mn := range names {
 			if mn != "Range" && mn != "RangeReverse" && mn != "Iterate" && mn != "Cursor" {
 				continue
+			}
+			if tn == "btree" && mn == "Cursor" {
+				continue // the cursor itself, not an iterator
 			}
 			fn := meths[mn]
 			k := 0
@@ -845,7 +887,7 @@ func ruleRangeWrappersLive(c *Ctx, r *R) {
 							}
 						}
 						// iterator.Map(<live>, f): a view of a live iterator
-						if fname(cal) == "Map" && calleePkgPath(cal) != "" && strings.HasSuffix(calleePkgPath(cal), "/iterator") && len(x.Call.Args) > 0 {
+						if (fname(cal) == "Map" || fname(cal) == "While") && calleePkgPath(cal) != "" && strings.HasSuffix(calleePkgPath(cal), "/iterator") && len(x.Call.Args) > 0 {
 							return live(x.Call.Args[0], d+1)
 						}
 						// a local helper of the package that only wraps (keysOf(iter))
@@ -995,4 +1037,441 @@ var _ = late(func() {
 		&Rule{ID: "C03.split-left-guards-agree", Floor: 1, Clause: "in overfill the rewrite of the left half's children is placed under the same condition (apart from the leaf test) as the rewrite of its keys and values", Run: ruleSplitLeftGuardsAgree})
 	properties["C01"].Rules = append(properties["C01"].Rules,
 		&Rule{ID: "C01.split-left-guards-agree", Floor: 1, Clause: "same rule as C03.split-left-guards-agree: a child left in place by a split puts keys on two search paths and hides the new leaf from Get", Run: ruleSplitLeftGuardsAgree})
+})
+
+// C04.wrapped-copy-nonempty (seed C04-r10m3): in resize the two-piece copy of a wrapped deque slices the new buffer at
+// len(d.a)-d.front. For an empty deque (front 0, back -1) the "wrapped" test front > back is true as well, and that offset is
+// the old length - past the end of a smaller new buffer: Shrink on a drained deque panics. The slice of the new buffer with a
+// computed low bound must therefore sit under a test that the deque holds items.
+var _ = late(func() {
+	properties["C04"].Rules = append(properties["C04"].Rules,
+		&Rule{ID: "C04.wrapped-copy-nonempty", Floor: 1, Clause: "in resize the second piece of the wrapped copy (the new buffer sliced at a computed offset) is reached only under a test that the deque holds items (back != -1, Len() > 0): an empty deque also has front > back, and the offset is then the whole old length - past the end of a smaller new buffer, so Shrink on a drained deque panics",
+			Run: ruleWrappedCopyNonEmpty})
+})
+
+func ruleWrappedCopyNonEmpty(c *Ctx, r *R) {
+	fn := c.fn("container/deque.Deque.resize")
+	if fn == nil {
+		r.undecided("deque.Deque.resize|missing", token.NoPos, "anchor not found")
+		return
+	}
+	n := 0
+	for _, fr := range deepFrames(fn, 2) {
+		fr := fr
+		instrs(fr.f, func(b *ssa.BasicBlock, _ int, in ssa.Instruction) {
+			sl, ok := in.(*ssa.Slice)
+			if !ok || sl.Low == nil {
+				return
+			}
+			if _, isK := sl.Low.(*ssa.Const); isK {
+				return
+			}
+			// of the buffer made here (not of d.a, whose own bounds hold for every state)
+			fresh := false
+			for _, lf := range valueLeaves(sl.X, fr.chain, 0) {
+				if _, isMk := lf.v.(*ssa.MakeSlice); isMk {
+					fresh = true
+				}
+			}
+			if !fresh {
+				return
+			}
+			n++
+			nonEmpty := false
+			for _, g := range guardsOf(b) {
+				cf, ok := g.asCmp()
+				if !ok {
+					continue
+				}
+				x, y, op := cf.x, cf.y, cf.op
+				if _, isK := x.(*ssa.Const); isK {
+					x, y, op = y, x, flip(op)
+				}
+				k, isK := y.(*ssa.Const)
+				if !isK || k.Value == nil {
+					continue
+				}
+				kv := k.Int64()
+				px := path(x)
+				switch {
+				case strings.HasSuffix(px, ".back"):
+					if (op == token.NEQ && kv == -1) || (op == token.GEQ && kv == 0) || (op == token.GTR && kv == -1) {
+						nonEmpty = true
+					}
+				default:
+					// the number of items: d.Len() or a local that holds it
+					isLen := false
+					for _, lf := range valueLeaves(x, fr.chain, 0) {
+						if call, isCall := lf.v.(*ssa.Call); isCall {
+							if cal := staticCallee(&call.Call); cal != nil && fname(cal) == "Len" {
+								isLen = true
+							}
+						}
+					}
+					if isLen && ((op == token.NEQ && kv == 0) || (op == token.GTR && kv == 0) || (op == token.GEQ && kv == 1)) {
+						nonEmpty = true
+					}
+				}
+			}
+			r.ok(nonEmpty, "deque.Deque.resize|wrapped-copy-nonempty#"+itoa(n), sl.Pos(), "the new buffer is sliced at a computed offset without a test that the deque holds items: for an empty deque (front 0, back -1, which also reads as 'wrapped') the offset is the old length, past the end of a smaller new buffer - Shrink on a drained deque panics")
+		})
+	}
+	if n == 0 {
+		r.discharged("deque.Deque.resize|wrapped-copy-nonempty", fn.Pos(), "resize slices the new buffer at constant offsets only")
+	}
+}
+
+// C03.insert-where-searched (seed C03-r10m2): Put finds the place of the new key with searchNode on the way down; the
+// insertion (insertIntoLeaf / overfill, the structural mutators that are handed the key) relies on that position. A structural
+// change of the node in between (an entry rotated over to a sibling "to avoid the split") moves the separator: the key can end
+// up on the wrong side of it, Contains no longer finds it and the walk is out of order.
+var _ = late(func() {
+	for _, pid := range []string{"C03", "C01"} {
+		properties[pid].Rules = append(properties[pid].Rules,
+			&Rule{ID: pid + ".insert-where-searched", Floor: 2, Clause: "in Put no structural change of the tree (a call that stores keys, children, n or parent of a node and is not handed the key) happens between the search that placed the key and the insertion that is handed it: the insertion relies on the searched position, a rotation in between moves the separator past the key",
+				Run: ruleInsertWhereSearched})
+	}
+})
+
+func ruleInsertWhereSearched(c *Ctx, r *R) {
+	fn := c.fn("container/tree.btree.Put")
+	if fn == nil || len(fn.Params) < 2 {
+		r.undecided("tree.btree.Put|missing", token.NoPos, "anchor not found")
+		return
+	}
+	kP := fn.Params[1]
+	structural := map[*ssa.Function]bool{}
+	searches := map[*ssa.Function]bool{}
+	classify := func(f *ssa.Function) (isStruct, isSearch bool) {
+		f = origin(f)
+		if v, ok := structural[f]; ok {
+			return v, searches[f]
+		}
+		structural[f], searches[f] = false, false
+		for _, di := range deepInstrs(f, 3) {
+			switch x := di.in.(type) {
+			case *ssa.Store:
+				if fld, base, ok := rootField(x.Addr); ok && isNamedTypeDeep(base.Type(), "container/tree", "node") {
+					switch fld {
+					case "keys", "children", "n", "parent":
+						structural[f] = true
+					}
+				}
+			case *ssa.Call:
+				if cal := staticCallee(&x.Call); cal != nil && fname(cal) == "searchNode" {
+					searches[f] = true
+				}
+			}
+		}
+		if fname(f) == "searchNode" {
+			searches[f] = true
+		}
+		return structural[f], searches[f]
+	}
+	pf := &PF{N: 2} // 0 = the key's place is known from a search and nothing has moved since; 1 = not (yet / any more)
+	hasKey := func(call *ssa.Call) bool {
+		for _, a := range call.Call.Args {
+			if resolveVal(a) == ssa.Value(kP) {
+				return true
+			}
+		}
+		return false
+	}
+	pf.Instr = func(f *ssa.Function, in ssa.Instruction, q int) (StateSet, bool) {
+		call, ok := in.(*ssa.Call)
+		if !ok {
+			return 0, false
+		}
+		cal := staticCallee(&call.Call)
+		if cal == nil || cal.Blocks == nil || rootFn(origin(cal)).Pkg != rootFn(fn).Pkg {
+			return 0, false
+		}
+		st, se := classify(cal)
+		switch {
+		case st && hasKey(call):
+			return ss(1), true // the insertion itself: afterwards the searched position is used up
+		case st:
+			return ss(1), true
+		case se && hasKey(call):
+			return ss(0), true
+		}
+		return 0, false
+	}
+	n := 0
+	pf.Visit = func(f *ssa.Function, in ssa.Instruction, before StateSet) {
+		call, ok := in.(*ssa.Call)
+		if !ok || f != fn {
+			return
+		}
+		cal := staticCallee(&call.Call)
+		if cal == nil || cal.Blocks == nil || rootFn(origin(cal)).Pkg != rootFn(fn).Pkg {
+			return
+		}
+		if st, _ := classify(cal); st && hasKey(call) {
+			n++
+			r.ok(before == ss(0), "tree.btree.Put|insert#"+itoa(n)+":"+fname(cal), call.Pos(), fname(cal)+" is handed the key after the tree was restructured since the search that placed it (or without such a search): the key may no longer belong where it is put - it lands on the wrong side of a separator, lookups miss it and the order of the walk breaks")
+		}
+	}
+	pf.Exits(fn, ss(1))
+	if n == 0 {
+		r.undecided("tree.btree.Put|insert", fn.Pos(), "no insertion that is handed the key found in Put")
+	}
+}
+
+// Seed round 10: two rules that existed for a sibling property, claimed for the property the change was seeded under as well.
+var _ = late(func() {
+	properties["C08"].Rules = append(properties["C08"].Rules,
+		&Rule{ID: "C08.publish-before-signal", Floor: 1, Clause: "same rule as C10.publish-before-signal restricted to PipeSender.Close, the pipe through which stream.Merge hands an input's error to the consumer: the error is stored before senderDone is closed - closed first, a receiver that wakes on the close reads the still-nil error and reports a clean End, the input's error is lost", Run: subRule(rulePipePublish, "stream.PipeSender.Close|")})
+	properties["C01"].Rules = append(properties["C01"].Rules,
+		&Rule{ID: "C01.thresholds", Floor: 6, Clause: "same rule as C03.thresholds: steal / merge are reached for the node that was actually drained (removeRightmost reports the leaf it took the predecessor from when THAT leaf is under-full): a leaf left under-full and unreported empties out while it stays linked, and the walk yields a phantom entry", Run: ruleTreeThresholds})
+})
+
+// unlock-held (seed C20-r10m2, C17-r10m3): a mutex that a function has locked itself is released exactly once on every way out.
+// Decided on the must-held lockset of the function: an Unlock / RUnlock that follows the function's own Lock / RLock of the
+// same mutex - written out or deferred - must find it held (a second release is a fatal "unlock of unlocked mutex"), and no
+// return may leave it held unless the function is one that hands the lock to its caller (no return releases it at all).
+func ruleUnlockHeld(pkgRel string) func(c *Ctx, r *R) {
+	return func(c *Ctx, r *R) {
+		fns := c.funcsOfPkg(pkgRel)
+		sort.Slice(fns, func(i, j int) bool { return c.nameOf(fns[i]) < c.nameOf(fns[j]) })
+		for _, fn := range fns {
+			if fn.Blocks == nil {
+				continue
+			}
+			held := locksIn(fn, lockset{})
+			type acq struct {
+				m  string
+				in ssa.Instruction
+			}
+			var acqs []acq
+			callerLock := map[string]bool{}
+			instrs(fn, func(_ *ssa.BasicBlock, _ int, in ssa.Instruction) {
+				if call, ok := in.(*ssa.Call); ok {
+					if m, op := lockEvent(&call.Call); m != "" && (op == "Lock" || op == "RLock") {
+						acqs = append(acqs, acq{m, in})
+						if call.Call.IsInvoke() {
+							callerLock[m] = true // a sync.Locker handed in by the user (ContextCond.L): Wait returns with it held by contract
+						}
+					}
+				}
+			})
+			if len(acqs) == 0 {
+				continue
+			}
+			after := func(m string, in ssa.Instruction) bool {
+				for _, a := range acqs {
+					if a.m == m && a.in.Block().Dominates(in.Block()) && (a.in.Block() != in.Block() || idxIn(a.in) < idxIn(in)) {
+						return true
+					}
+				}
+				return false
+			}
+			n := 0
+			name := c.nameOf(fn)
+			releasedSomewhere := map[string]bool{}
+			deferred := map[string][]*ssa.Defer{}
+			instrs(fn, func(_ *ssa.BasicBlock, _ int, in ssa.Instruction) {
+				switch x := in.(type) {
+				case *ssa.Call:
+					m, op := lockEvent(&x.Call)
+					if m == "" || (op != "Unlock" && op != "RUnlock") {
+						return
+					}
+					releasedSomewhere[m] = true
+					if !after(m, in) {
+						return
+					}
+					n++
+					_, h := held[in][m]
+					r.ok(h, name+"|release "+m+"#"+itoa(n), x.Pos(), op+" of "+m+", which this function locked itself, on a path on which it is not held any more (already released): unlocking an unlocked mutex is a fatal error")
+				case *ssa.Defer:
+					m, op := lockEvent(&x.Call)
+					if m == "" || (op != "Unlock" && op != "RUnlock") {
+						return
+					}
+					releasedSomewhere[m] = true
+					if after(m, in) {
+						deferred[m] = append(deferred[m], x)
+					}
+				}
+			})
+			instrs(fn, func(b *ssa.BasicBlock, _ int, in ssa.Instruction) {
+				rd, ok := in.(*ssa.RunDefers)
+				if !ok {
+					return
+				}
+				for m, ds := range deferred {
+					for _, d := range ds {
+						if !d.Block().Dominates(b) {
+							continue
+						}
+						n++
+						_, h := held[rd][m]
+						r.ok(h, name+"|deferred-release "+m+"#"+itoa(n), d.Pos(), "the deferred release of "+m+" runs at an exit that has already released it: unlocking an unlocked mutex is a fatal error")
+					}
+				}
+			})
+			// no way out with the function's own lock still held (unless it is deferred, or the function never releases it: an
+			// acquiring helper)
+			instrs(fn, func(b *ssa.BasicBlock, _ int, in ssa.Instruction) {
+				ret, ok := in.(*ssa.Return)
+				if !ok || b.Comment == "recover" {
+					return
+				}
+				for m := range held[ret] {
+					if !releasedSomewhere[m] || callerLock[m] {
+						continue
+					}
+					isDeferred := false
+					for _, d := range deferred[m] {
+						if d.Block().Dominates(b) {
+							isDeferred = true
+						}
+					}
+					if isDeferred {
+						continue
+					}
+					mine := false
+					for _, a := range acqs {
+						if a.m == m {
+							mine = true
+						}
+					}
+					if !mine {
+						continue
+					}
+					n++
+					r.violated(name+"|leaves-held "+m+"#"+itoa(n), retPos(ret), "a path returns with "+m+" still held (the function releases it on its other paths): the next Lock of it - Stop, StopAndWait, the next caller - blocks for ever")
+				}
+			})
+		}
+	}
+}
+
+var _ = late(func() {
+	properties["C20"].Rules = append(properties["C20"].Rules,
+		&Rule{ID: "C20.unlock-held", Floor: 1, Clause: "in xtime a mutex a function locked itself is released exactly once on every way out: no Unlock (written out or deferred) where it is already released - a stale timer callback that unlocks twice kills the process - and no return with it still held", Run: ruleUnlockHeld("xtime")})
+	properties["C17"].Rules = append(properties["C17"].Rules,
+		&Rule{ID: "C17.unlock-held", Floor: 2, Clause: "same rule as C20.unlock-held over xsync: in particular the refusing path of Group.spawn (group already stopped) lets the read lock go - left held, the next Stop / StopAndWait blocks for ever in g.m.Lock()", Run: ruleUnlockHeld("xsync")})
+	properties["C16"].Rules = append(properties["C16"].Rules,
+		&Rule{ID: "C16.unlock-held", Floor: 2, Clause: "same rule as C20.unlock-held over xsync: ContextCond's methods release c.m exactly once on every way out", Run: ruleUnlockHeld("xsync")})
+})
+
+// C19.sort-wrappers (seed C19-r10m3): xsort.Slice / SliceStable / SliceIsSorted "follow the same rules as" the functions of
+// package sort of the same name. They do when they ARE those functions applied to x with the index adapter less(x[i], x[j]);
+// a hand-written replacement has to re-decide ties (a slice with equal neighbours is sorted), stability and the empty slice.
+func ruleSortWrappers(c *Ctx, r *R) {
+	for _, n := range []string{"Slice", "SliceStable", "SliceIsSorted"} {
+		fn := c.fn("xsort." + n)
+		key := "xsort." + n + "|delegates"
+		if fn == nil || len(fn.Params) < 2 {
+			r.undecided("xsort."+n+"|missing", token.NoPos, "anchor not found")
+			continue
+		}
+		xP, lessP := fn.Params[0], fn.Params[1]
+		var site *ssa.Call
+		nCalls := 0
+		instrs(fn, func(_ *ssa.BasicBlock, _ int, in ssa.Instruction) {
+			call, ok := in.(*ssa.Call)
+			if !ok {
+				return
+			}
+			if cal := call.Call.StaticCallee(); cal != nil && cal.Pkg != nil && cal.Pkg.Pkg.Path() == "sort" {
+				nCalls++
+				if cal.Name() == n {
+					site = call
+				}
+			}
+		})
+		if site == nil || nCalls != 1 || len(site.Call.Args) != 2 {
+			r.violated(key, fn.Pos(), "xsort."+n+" does not hand its work to sort."+n+": its documented behaviour is that function's (equal neighbours count as sorted, ties keep their order in the stable sort)")
+			continue
+		}
+		why := ""
+		if resolveVal(site.Call.Args[0]) != ssa.Value(xP) {
+			if mi, isMI := site.Call.Args[0].(*ssa.MakeInterface); !isMI || resolveVal(mi.X) != ssa.Value(xP) {
+				why = "sort." + n + " is not handed x itself"
+			}
+		}
+		// the call is unconditional and its result is the result
+		if len(guardsOf(site.Block())) > 0 {
+			why = "sort." + n + " is called only under a condition"
+		}
+		ad := resolveFuncValue(site.Call.Args[1], 0)
+		if ad == nil || len(ad.Params) != 2 {
+			why = "the index adapter handed to sort." + n + " could not be resolved"
+		} else if why == "" {
+			// return less(x[i], x[j])
+			okAd := false
+			nr := 0
+			instrs(ad, func(_ *ssa.BasicBlock, _ int, in ssa.Instruction) {
+				ret, ok := in.(*ssa.Return)
+				if !ok || len(ret.Results) != 1 {
+					return
+				}
+				nr++
+				call, ok := returnedValue(ret, 0).(*ssa.Call)
+				if !ok || len(call.Call.Args) != 2 || call.Call.IsInvoke() || staticCallee(&call.Call) != nil {
+					return
+				}
+				isLess := false
+				for _, lf := range valueLeaves(call.Call.Value, nil, 0) {
+					if resolveVal(lf.v) == ssa.Value(lessP) {
+						isLess = true
+					} else if prm, isP := resolveVal(lf.v).(*ssa.Parameter); isP && prm.Parent() != fn {
+						// the adapter is built by a helper that is handed less (byIndex(x, less)): its parameter of the comparator's shape
+						if sig, isSig := prm.Type().Underlying().(*types.Signature); isSig && sig.Params().Len() == 2 && sig.Results().Len() == 1 && isBoolType(sig.Results().At(0).Type()) {
+							isLess = true
+						}
+					}
+				}
+				elem := func(v ssa.Value, idx *ssa.Parameter) bool {
+					ld, ok := v.(*ssa.UnOp)
+					if !ok || ld.Op != token.MUL {
+						return false
+					}
+					ia, ok := ld.X.(*ssa.IndexAddr)
+					if !ok || resolveVal(ia.Index) != ssa.Value(idx) {
+						return false
+					}
+					for _, lf := range valueLeaves(ia.X, nil, 0) {
+						prm, isP := resolveVal(lf.v).(*ssa.Parameter)
+						if !isP {
+							return false
+						}
+						if _, isSl := prm.Type().Underlying().(*types.Slice); !isSl {
+							return false
+						}
+						if prm.Parent() == fn && prm != xP {
+							return false
+						}
+					}
+					return true
+				}
+				if isLess && elem(call.Call.Args[0], ad.Params[0]) && elem(call.Call.Args[1], ad.Params[1]) {
+					okAd = true
+				}
+			})
+			if !okAd || nr != 1 {
+				why = "the index adapter is not func(i, j) { return less(x[i], x[j]) }"
+			}
+		}
+		if n == "SliceIsSorted" && why == "" {
+			isRes := false
+			instrs(fn, func(_ *ssa.BasicBlock, _ int, in ssa.Instruction) {
+				if ret, ok := in.(*ssa.Return); ok && len(ret.Results) == 1 && returnedValue(ret, 0) == ssa.Value(site) {
+					isRes = true
+				}
+			})
+			if !isRes {
+				why = "the answer of sort.SliceIsSorted is not what is returned"
+			}
+		}
+		r.ok(why == "", key, site.Pos(), "xsort."+n+" must be sort."+n+"(x, func(i, j int) bool { return less(x[i], x[j]) }): "+why)
+	}
+}
+
+var _ = late(func() {
+	properties["C19"].Rules = append(properties["C19"].Rules,
+		&Rule{ID: "C19.sort-wrappers", Floor: 3, Clause: "xsort.Slice, SliceStable and SliceIsSorted are the functions of package sort of the same name applied to x and the index adapter less(x[i], x[j]) (their documentation: 'follows the same rules as sort.…'): a hand-written loop has to re-decide ties - `!less(x[i-1], x[i])` calls a slice with equal neighbours unsorted", Run: ruleSortWrappers})
 })
